@@ -182,7 +182,9 @@ def eval_script(case, tapes, out):
                 tmo = True
                 last_read_timed_out[len(sessions) - 1] = True
                 dt = r['t1'] - r['t0']
-                if op.get('timeout') is not None and dt < op['timeout'] - 1e-6:
+                if op.get('timeout') is None:
+                    probs.append(O.P('timeout-early', 'op#%d bulk_read(%d, None) raised TcpTimeoutException after %.3f virtual s although it was given no timeout (%s)' % (i, op['n'], dt, r.get('msg'))))
+                elif dt < op['timeout'] - 1e-6:
                     probs.append(O.P('timeout-early', 'op#%d bulk_read(%d, %r) raised TcpTimeoutException after %.6f virtual s' % (i, op['n'], op['timeout'], dt)))
                 # nothing may have been readable at the moment it gave up
             else:
